@@ -85,10 +85,7 @@ impl StarkConfig {
             self.fri.validate(self.log_n_cosets, self.n_verifier_friendly_commitment_layers)?;
         // The degree FRI tests for must be the degree bound of the trace (this also bounds
         // log_trace_domain_size, so the height checks above hold over the integers).
-        ensure!(
-            log_expected_input_degree == self.log_trace_domain_size,
-            Error::FriDegreeMismatch
-        );
+        ensure!(log_expected_input_degree == self.log_trace_domain_size, Error::FriDegreeMismatch);
         Ok(())
     }
 }
